@@ -211,6 +211,29 @@ op_open (char **tok, int ntok)
 			if (close_desc && h->sf != NULL) h->fd = -1 - h->fd ;	/* remember number, library owns it */
 			}
 		}
+	else if (!strcmp (route, "pipe") && mode == SFM_READ)
+	{	/* non-seekable input: a child process feeds the store into a pipe */
+		int pfd [2] ; pid_t pid ;
+		if (pipe (pfd) != 0) { printf ("bad-route\n") ; return ; }
+		fflush (stdout) ;
+		pid = fork () ;
+		if (pid == 0)
+		{	sf_count_t done = 0 ;
+			close (pfd [0]) ;
+			signal (SIGPIPE, SIG_DFL) ;
+			alarm (0) ;
+			while (done < s->len)
+			{	ssize_t r = write (pfd [1], s->buf + done, s->len - done) ;
+				if (r <= 0) break ;
+				done += r ;
+				}
+			_exit (0) ;
+			}
+		close (pfd [1]) ;
+		h->fd = pfd [0] ;
+		h->sf = sf_open_fd (h->fd, mode, &h->info, 1) ;
+		if (h->sf != NULL) h->fd = -1 ;	/* library owns it */
+		}
 	else
 	{	printf ("bad-route\n") ; return ; }
 
@@ -265,7 +288,6 @@ op_read (char **tok, int ntok)
 	long long n = atoll (tok [4]), ret = 0, items ;
 	int w = ty_width (ty), ch ;
 	unsigned char *buf ;
-	(void) ntok ;
 	if (h == NULL || w == 0) { printf ("bad-op\n") ; return ; }
 	ch = h->ch > 0 ? h->ch : 1 ;
 	items = unit [0] == 'i' ? n : n * ch ;
@@ -285,7 +307,14 @@ op_read (char **tok, int ntok)
 		else ret = sf_readf_double (h->sf, (double *) buf, n) ;
 		}
 	printf ("ret=%lld err=%d data=", ret, sf_error (h->sf)) ;
-	put_items (buf, items, w) ;
+	if (ntok > 5 && tok [5][0] == 'q')
+	{	/* quiet: a hash instead of the items (C03 asks for large buffers) */
+		uint64_t hsh = 1469598103934665603ULL ; long long k ;
+		for (k = 0 ; k < items * w ; k++) { hsh ^= buf [k] ; hsh *= 1099511628211ULL ; }
+		printf ("fnv:%016llx", (unsigned long long) hsh) ;
+		}
+	else
+		put_items (buf, items, w) ;
 	printf ("\n") ;
 	free (buf) ;
 }
@@ -480,7 +509,9 @@ op_chunkiter (char **tok, int ntok)
 		printf ("size_ret=%d id=", r1) ;
 		puthex ((unsigned char *) ci.id, ci.id_size < sizeof (ci.id) ? ci.id_size : sizeof (ci.id)) ;
 		printf (" datalen=%u", ci.datalen) ;
+		fflush (stdout) ;	/* keep the sizes visible if the data call does not return */
 		if (want >= 0) ci.datalen = want ;
+		else if (ci.datalen > (1u << 20)) ci.datalen = 1u << 20 ;	/* a hostile file may claim 4 GiB; the library copies min (datalen, stored) */
 		ci.data = malloc (ci.datalen ? ci.datalen : 1) ;
 		memset (ci.data, 0xA5, ci.datalen ? ci.datalen : 1) ;
 		r2 = sf_get_chunk_data (h->it, &ci) ;
@@ -635,6 +666,8 @@ main (int argc, char **argv)
 		return cmd_table (argc - 2, argv + 2) ;
 	if (!strcmp (argv [1], "grid"))
 		return cmd_grid (argc - 2, argv + 2) ;
+	if (!strcmp (argv [1], "c03consts"))
+		return cmd_c03consts () ;
 	fprintf (stderr, "sfh: unknown subcommand %s\n", argv [1]) ;
 	return 2 ;
 }
